@@ -40,3 +40,42 @@ package data
 //@ func cloneItemAwareMap
 //@   prop C17
 //@   requires *out != nil
+
+// ---------------------------------------------------------------------------
+// variables of a flow data locator: abstract view = the map f.variables
+
+//@ func (*FlowDataLocator).SetVariable
+//@   prop C16 C08
+//@   modifies mapof(map[string]IItem), fresh schema.Value.ItemType, fresh schema.Value.ItemValue
+//@   ensures [stored] has(f.variables, name) && f.variables[name] != nil
+//@   ensures [value-kept-as-is] is(value, *schema.Value) ==> f.variables[name] == iface(value.(*schema.Value))
+//@   ensures [others-untouched] forall k string :: k != name ==> has(f.variables, k) == old(has(f.variables, k)) && f.variables[k] == old(f.variables[k])
+//@   ensures [other-maps-untouched] onlymap(f.variables)
+//@   ensures f.variables == old(f.variables)
+
+//@ func (*FlowDataLocator).GetVariable
+//@   prop C16 C08
+//@   modifies nothing
+//@   ensures [found-iff-present] result1 == has(f.variables, name)
+//@   ensures [absent-is-nil] !result1 ==> result0 == nil
+
+//@ func (*FlowDataLocator).CloneVariables
+//@   prop C16 C08
+//@   modifies fresh mapof(map[string]IItem)
+//@   ensures [fresh-map] result != nil && fresh(result)
+//@   ensures [only-stored-entries] forall k string :: has(result, k) ==> has(f.variables, k) && result[k] == f.variables[k]
+//@   loop 1 range f.variables
+//@     invariant out != nil && fresh(out)
+//@     invariant forall k string :: has(out, k) ==> has(f.variables, k) && out[k] == f.variables[k]
+//@     invariant preserved("mapof(map[string]IItem)")
+
+//@ func (*FlowDataLocator).FindIItemAwareLocator
+//@   prop C16
+//@   modifies nothing
+//@   ensures found == has(f.locators, name) && (found ==> locator == f.locators[name])
+
+//@ func (*FlowDataLocator).PutIItemAwareLocator
+//@   prop C16
+//@   modifies mapof(map[string]IItemAwareLocator)
+//@   ensures has(f.locators, name) && f.locators[name] == locator
+//@   ensures forall k string :: k != name ==> has(f.locators, k) == old(has(f.locators, k)) && f.locators[k] == old(f.locators[k])
